@@ -10,9 +10,10 @@ from ..rules import S, body_nodes, find_raise_guards
 from ..srcmodel import src_of
 
 EXPLANATION = (
-    "typing.binary_sequence and the threshold comparisons of electrical_signal. C15.1: in __init__ the 0/1 membership test and the "
-    "ndim>1 test (both -> ValueError) precede the single store of self.data, whose value is .astype(np.uint8) of the validated array "
-    "(0-d input gets a new axis). C15.2: __getitem__, __add__, __radd__, __invert__, electrical_signal.__gt__/__lt__ and the codec "
+    "typing.binary_sequence and the threshold comparisons of electrical_signal. C15.1: __init__ is interpreted; a ValueError exit is guarded "
+    "by the value form not all((x==0)|(x==1)) (wherever it is written) and every constructing path passed it; ndim classes 2, 3 raise "
+    "ValueError, 0 and 1 construct, a 0-d input is stored with a new axis, as .astype(np.uint8); for string input the shared parser converts "
+    "characters by parsing (a non-digit raises), not by arithmetic on code points. C15.2: __getitem__, __add__, __radd__, __invert__, electrical_signal.__gt__/__lt__ and the codec "
     "functions (PRBS, PPM_ENCODER/DECODER, HDD, SDD) return objects built by the validating constructor. C15.3: effect summaries show "
     "no operand data is written and no result aliases an operand. C15.4: __add__ concatenates (self, other), __radd__ (other, self); "
     "binary_sequence/str/Array_Like are accepted, anything else raises TypeError; non-0/1 content and ndim != 1 raise ValueError. "
